@@ -4,6 +4,7 @@ import (
 	"bytes"
 	"errors"
 	"fmt"
+	"math"
 	"strconv"
 	"strings"
 
@@ -13,7 +14,8 @@ import (
 )
 
 var (
-	errInvalidRange = errors.New("Invalid range string")
+	errInvalidRange       = errors.New("Invalid range string")
+	errScoreNotValidFloat = errors.New("ERR value is not a valid float")
 )
 
 func getScoreRange(left []byte, right []byte) (float64, float64, error) {
@@ -410,9 +412,12 @@ func (nd *KVNode) zincrbyCommand(cmd redcon.Command) (interface{}, error) {
 		err := fmt.Errorf("ERR wrong number arguments for '%v' command", string(cmd.Args[0]))
 		return nil, err
 	}
-	_, err := strconv.ParseFloat(string(cmd.Args[2]), 64)
+	delta, err := strconv.ParseFloat(string(cmd.Args[2]), 64)
 	if err != nil {
 		return nil, err
+	}
+	if math.IsNaN(delta) {
+		return nil, errScoreNotValidFloat
 	}
 
 	v, err := rebuildFirstKeyAndPropose(nd, cmd, func(cmd redcon.Command, r interface{}) (interface{}, error) {
@@ -490,6 +495,9 @@ func getScorePairs(args [][]byte) ([]common.ScorePair, error) {
 		if err != nil {
 			return nil, err
 		}
+		if math.IsNaN(s) {
+			return nil, errScoreNotValidFloat
+		}
 		mlist = append(mlist, common.ScorePair{Score: s, Member: args[i+1]})
 	}
 
@@ -512,6 +520,9 @@ func (kvsm *kvStoreSM) localZincrbyCommand(cmd redcon.Command, ts int64) (interf
 	delta, err := strconv.ParseFloat(string(cmd.Args[2]), 64)
 	if err != nil {
 		return nil, err
+	}
+	if math.IsNaN(delta) {
+		return nil, errScoreNotValidFloat
 	}
 	return kvsm.store.ZIncrBy(ts, cmd.Args[1], delta, cmd.Args[3])
 }
